@@ -1,14 +1,15 @@
 (** Property C12 - parsing any input terminates with success or a positioned, local error.
-    Only theorem statements, each closed by [exact]. Model: Dbc/Scanner.v, Dbc/Parser.v. *)
+    Only theorem statements, each closed by [exact]. Model: Dbc/Scanner.v, Dbc/Parser.v
+    ([parse_bytes il id src] = NewParser(src).Parse() with Defs(), fuel = length src + 4). *)
 From Coq Require Import ZArith List String.
-From CanVerif Require Import Dbc.Ast Dbc.Scanner Dbc.Parser Dbc.Witness Dbc.Totality.
+From CanVerif Require Import Dbc.Ast Dbc.Scanner Dbc.ScanLemmas Dbc.Parser Dbc.Printer Dbc.Witness Dbc.RoundTrip
+  Dbc.Totality Dbc.Locality.
 Import ListNotations.
 Open Scope Z_scope.
 
-(** totality: for EVERY byte list and every classification of the non-ASCII runes, parsing with the
-    fuel [length src + 4] ends in success or in an error whose position lies inside the input; it never
-    reaches a failing index operation ([Panic]) and never exhausts the fuel ([OutOfFuel]: every loop
-    iteration consumes input) *)
+(** totality: for EVERY byte list and every classification of the non-ASCII runes, parsing ends in
+    success or in an error whose position lies inside the input; it never reaches a failing index
+    operation ([Panic]) and never exhausts the fuel ([OutOfFuel]: every loop iteration consumes input) *)
 Theorem C12_parse_total : forall (il id : Z -> bool) (src : list Z),
   Forall (fun b => 0 <= b < 256) src ->
   match parse_bytes il id src with
@@ -26,6 +27,28 @@ Theorem C12_deterministic : forall (il id : Z -> bool) (src : list Z) o1 o2,
 Proof. exact (fun il id src o1 o2 H1 H2 => eq_trans (eq_sym H1) H2). Qed.
 Print Assumptions C12_deterministic.
 
+(* FULL STATEMENT of locality (DESIGN.md 5.12), not proved in this generality:
+
+     Theorem error_local : forall il id l ds1 c pos k defs, wf_layout l -> Forall wf_sdef_full ds1 ->
+       at_definition_boundary c ->
+       parse_bytes il id (print_full l ds1 ++ c) = Err pos k defs ->
+       prefix (elaborate_full l ds1) defs /\ length (print_full l ds1) <= offset pos.
+
+   PROVED (below): for the source class of Dbc/Printer.v (VERSION, BS_, BU_, unknown lines; plain
+   layout) and every continuation [c] that is empty or still begins with an identifier followed by an
+   ASCII non-identifier character (the first token of the corrupted definition is scannable). Without
+   that side condition the statement is false of the code by design of the one-token lookahead: an
+   illegal byte directly after a BS_, NS_, BO_ or SG_ definition is raised while that definition
+   peeks for its optional continuation, before it is appended to Defs(). *)
+Theorem C12_error_local_partial : forall (il id : Z -> bool) (ds1 : list sdef) (c : list Z) pos k defs,
+  Forall wf_sdef ds1 -> Forall (fun b => 0 <= b < 256) c ->
+  (c = [] \/ exists kw ch r, c = kw ++ ch :: r /\ is_ident kw /\ ascii ch /\ idc ch = false) ->
+  parse_bytes il id (print ds1 ++ c) = Err pos k defs ->
+  (exists more, defs = elaborate ds1 ++ more)
+  /\ Z.of_nat (List.length (print ds1)) <= p_offset pos <= Z.of_nat (List.length (print ds1 ++ c)).
+Proof. exact error_local_partial. Qed.
+Print Assumptions C12_error_local_partial.
+
 (** regression witness of the locality defect F11: with the signal loop that called peekKeyword on any
     non-EOF token, a complete message followed by '$' was not among the definitions reported so far *)
 Theorem C12_error_local_refuted : forall il id,
@@ -33,6 +56,8 @@ Theorem C12_error_local_refuted : forall il id,
   /\ parse_bytes il id (txt ("BO_ 1 M: 8 N" ++ LF ++ "$" ++ LF)) = Err (at_ 2 1 13) ESyntax [f11_message].
 Proof. exact (fun il id => conj (f11_old il id) (f11_fixed il id)). Qed.
 
+(** non-vacuity: an error outcome exists (so the position clause is not vacuous), and a success *)
 Example C12_nonvacuous : forall il id,
-  parse_bytes il id (txt ("BS_: 500 : 1 , 2" ++ LF)) = Ok [DBitTiming (at_ 1 1 0) 500 1 2].
-Proof. exact f9_fixed. Qed.
+  parse_bytes il id (txt ("BO_ 1 M: 8 N" ++ LF ++ "$" ++ LF)) = Err (at_ 2 1 13) ESyntax [f11_message]
+  /\ parse_bytes il id (txt ("BS_: 500 : 1 , 2" ++ LF)) = Ok [DBitTiming (at_ 1 1 0) 500 1 2].
+Proof. exact (fun il id => conj (f11_fixed il id) (f9_fixed il id)). Qed.
